@@ -1189,6 +1189,13 @@ static int chmd_init_decomp(struct mschm_decompressor_p *self,
   self->d->length = length;
   length -= self->d->offset;
 
+  /* a file that starts at or beyond the end of the stream has no data to
+   * decode, and a length of 0 would mean "unknown" to the LZX decoder */
+  if (length <= 0) {
+    D(("file offset at or beyond end of LZX stream"))
+    return self->error = MSPACK_ERR_DECRUNCH;
+  }
+
   /* initialise LZX stream */
   self->d->state = lzxd_init(&self->d->sys, self->d->infh,
                              (struct mspack_file *) self, window_bits,
